@@ -10,7 +10,7 @@ CTX = {}
 
 def gen_case(rng):
     return {'kind': 'schemaleak', 'order': rng.choice(['plain-first', 'over-first']),
-            'how': rng.choice(['_schema', '_condition', 'merge_overrides', '_schema_default']),
+            'how': rng.choice(['_schema', '_condition', 'merge_overrides', '_schema_default', 'nested_glob']),
             'glob_child': rng.random() < 0.7, 'ticks': rng.choice([1, 2])}
 
 
@@ -18,7 +18,9 @@ def corpus():
     return [{'kind': 'schemaleak', 'order': 'over-first', 'how': '_schema', 'glob_child': True, 'ticks': 2},
             {'kind': 'schemaleak', 'order': 'over-first', 'how': '_schema_default', 'glob_child': False, 'ticks': 1},
             {'kind': 'schemaleak', 'order': 'plain-first', 'how': '_schema_default', 'glob_child': True, 'ticks': 1},
-            {'kind': 'schemaleak', 'order': 'plain-first', 'how': '_condition', 'glob_child': True, 'ticks': 1}]
+            {'kind': 'schemaleak', 'order': 'plain-first', 'how': '_condition', 'glob_child': True, 'ticks': 1},
+            # F33: two glob viewers with nested sub-schemas on one store
+            {'kind': 'schemaleak', 'order': 'plain-first', 'how': 'nested_glob', 'glob_child': True, 'ticks': 1}]
 
 
 def run_impl(case):
@@ -42,6 +44,8 @@ def run_impl(case):
                            'g': {k: sorted(v.keys()) for k, v in states['g'].items()}})
             return {}
     obs = {'log': log}
+    if case['how'] == 'nested_glob':
+        return _nested_glob(case, key, log)
     try:
         if case['how'] == '_schema':
             over = Shared({'key': key, 'who': 'over',
@@ -71,6 +75,41 @@ def run_impl(case):
         obs['expected_values'] = {'A.x': 10 if case['how'] == '_schema_default' else 0, 'A2.x': 0}
         obs['declared'] = {'plain': {'a': ['x'], 'g': ['x']},
                            'over': {'a': sorted(['x'] + extra_a), 'g': sorted(['x'] + extra_g)}}
+    except Exception as e:  # noqa
+        obs['raised'] = f'{type(e).__name__}: {str(e)[:200]}'
+    finally:
+        CTX.pop(key, None)
+    return obs
+
+
+def _nested_glob(case, key, log):
+    """two processes watch one glob store, each declaring its own variable below a nested port"""
+    from vivarium.core.engine import Engine
+    from vivarium.core.process import Process
+
+    class V(Process):
+        defaults = {'var': 'x', 'who': '', 'key': None}
+
+        def ports_schema(self):
+            return {'a': {'x': {'_default': 0}},
+                    'g': {'*': {'inner': {self.parameters['var']: {'_default': 1}}}}}
+
+        def next_update(self, timestep, states):
+            lg = CTX.get(self.parameters['key'])
+            if lg is not None:
+                lg.append({'who': self.parameters['who'], 'a': sorted(states['a'].keys()),
+                           'g': {k: sorted(v['inner'].keys()) for k, v in states['g'].items()}})
+            return {}
+    obs = {'log': log}
+    try:
+        names = ['plain', 'over'] if case['order'] == 'plain-first' else ['over', 'plain']
+        procs = {n: V({'var': 'x' if n == 'plain' else 'y', 'who': n, 'key': key}) for n in names}
+        topology = {n: {'a': ('A',) if n == 'over' else ('A2',), 'g': ('G',)} for n in names}
+        eng = Engine(processes=procs, topology=topology, initial_state={'G': {'c0': {}}},
+                     emitter={'type': 'null'}, display_info=False, progress_bar=False)
+        eng.update(case['ticks'])
+        obs['values'] = obs['expected_values'] = {}
+        obs['declared'] = {'plain': {'a': ['x'], 'g': ['x']}, 'over': {'a': ['x'], 'g': ['y']}}
     except Exception as e:  # noqa
         obs['raised'] = f'{type(e).__name__}: {str(e)[:200]}'
     finally:
